@@ -107,10 +107,12 @@ class Gen:
         self.cur = b
 
     def copy(self):
-        if self.multi:
-            return
+        # operator= / copy construction exist for Map and MultiMap
         self.ops.append(self.rng.choice(['copy', 'copyc']))
         self.s.keys = list(self.sims[1 - self.cur].keys)
+
+    def copy_self(self):
+        self.ops.append('copys')
 
     def bulk(self):
         if self.multi:
@@ -176,8 +178,10 @@ class Gen:
             self.clear()
         elif r < 0.993:
             self.sel(1 - self.cur)
-        elif r < 0.997:
+        elif r < 0.996:
             self.copy()
+        elif r < 0.998:
+            self.copy_self()
         else:
             self.bulk()
 
@@ -247,18 +251,38 @@ def profile_case(rng, multi, R, length, profile, hash_mode=False):
         g.find_all()
         return g.ops
     elif profile == 'bulk':
-        # two containers, copy / assign / bulk insert in both directions (Map only)
-        for _ in range(rng.randrange(0, n_build // 2 + 1)):
-            g.ins(g.key() if rng.random() < 0.5 else rng.randrange(4 * R))
+        # two containers, copy / assign / self-assign in both directions (Map and MultiMap), bulk insert (Map).
+        # MultiMap: the source holds runs of equal keys whose values differ (built by plain, hinted and
+        # descending inserts, thinned by removals), so a copy that reorders a run is visible.
+        def fill():
+            m = rng.randrange(0, n_build // 2 + 1)
+            if multi:
+                ks = [rng.randrange(R) for _ in range(rng.randrange(1, 5))]
+                for _ in range(m):
+                    q = rng.random()
+                    k = rng.choice(ks) if q < 0.75 else g.key()
+                    if q < 0.55:
+                        g.ins(k)
+                    elif q < 0.8:
+                        g.hint(g.good_hint(k), k)
+                    elif g.s.keys:
+                        g.remi(rng.randrange(len(g.s.keys)))
+            else:
+                for _ in range(m):
+                    g.ins(g.key() if rng.random() < 0.5 else rng.randrange(4 * R))
+        fill()
         g.sel(1)
-        for _ in range(rng.randrange(0, n_build // 2 + 1)):
-            g.ins(g.key() if rng.random() < 0.5 else rng.randrange(4 * R))
+        fill()
         for _ in range(max(1, length // 10)):
             r = rng.random()
-            if r < 0.3:
+            if r < (0.1 if multi else 0.3):
                 g.bulk()
-            elif r < 0.55:
+            elif r < 0.5:
                 g.copy()
+                if rng.random() < 0.5:
+                    g.find_all()
+            elif r < 0.55:
+                g.copy_self()
             elif r < 0.7:
                 g.sel(1 - g.cur)
             elif r < 0.85:
@@ -318,8 +342,9 @@ def reset_hint_cases(thorough):
     bases = [[10, 20, 30, 40, 50], [10]] + ([[10, 20, 30], [10, 10, 20, 20]] if thorough else [])
     for fl in ('map', 'multimap'):
         resets = ['clear', 'drain_front', 'drain_back', 'drain_key', 'drain_iter', 'remb', 'remf', 'remi_last', 'remk_max']
+        resets += ['copy', 'copyc']
         if fl == 'map':
-            resets += ['copy', 'copyc', 'clear_bulk']
+            resets += ['clear_bulk']
         for base in bases:
             if fl == 'map' and len(set(base)) != len(base):
                 continue
@@ -457,30 +482,41 @@ class C01(Check):
     extracted = ['coq/Avl/model.mli', 'coq/Avl/model.ml', 'ocaml/zconv.ml', 'ocaml/avl_driver.ml']
     harness_sources = ['harness/avl.cpp']
     per_case_timeout = 5
-    level_text = ('Theorems in Coq (coq/Avl, 15 in Properties_C01.v), for every history of insert (plain and hinted), remove by key / '
-                  'iterator, removeFront/removeBack, clear, copy, insert(other), find/contains/count/front/back on two containers: '
+    level_text = ('Theorems in Coq (coq/Avl, 18 in Properties_C01.v), for every history of insert (plain and hinted), remove by key / '
+                  'iterator, removeFront/removeBack, clear, copy construction / operator= / self-assignment (Map and MultiMap), '
+                  'Map::insert(other), find/contains/count/front/back on two containers: '
                   'the AVL invariant of the model (stored height = real height, sibling heights differ by at most 1, in-order sequence '
                   'sorted - strict for Map, non-strict for MultiMap -, size counter = number of nodes) holds initially and is preserved '
                   'by every operation; every operation refines the reference sorted (multi)map (contents, size, find/contains, count, '
-                  'front/back, returned iterator; a plain MultiMap insert lands after all keys <= k; the position a hinted MultiMap '
-                  'insert chooses is checked to keep the order); find makes at most 2*floor(1.4405*log2(n+2)) comparisons (integer '
+                  'front/back, returned iterator; a plain MultiMap insert lands after all keys <= k; a copy holds the source\'s keys and '
+                  'values in the source\'s order - runs of equal keys of a MultiMap included - as new entries and leaves the source '
+                  'untouched; remove(key) removes exactly the first entry of the run of equal keys; the position a hinted MultiMap '
+                  'insert chooses passes the reference\'s order test in every reachable state, so the reference never rejects); find makes at most 2*floor(1.4405*log2(n+2)) comparisons (integer '
                   'form without axioms via fib(h+2) <= n+1 and 1.61803^121 >= 2^84; real-number form with ln/Int_part). The model is '
                   'tied to the code by running the extracted model, the extracted reference and the ASan/UBSan build of the working '
                   'tree on the same histories: results, iteration, tree shape with stored heights, parent links, slope fields and the '
-                  'threaded prev/next list are compared after every operation, plus the comparison counter of every find.')
+                  'threaded prev/next list are compared after every operation (of both containers after copy / assignment / '
+                  'insert(other)), plus the comparison counter of every find; the const overloads of front/back and of the '
+                  'iterator ++/--/*/-> are cross-checked against the non-const ones.')
     level_note = ('The theorems are about the model; the tie to the code is differential. Validated by correspondence only (not '
                   'theorems): threaded prev/next list = in-order walk, parent links, the stored slope field, and that the code\'s '
                   '"stop going up when the height did not change" shortcuts compute the tree of the model (the model re-balances all '
-                  'the way to the root). Copy construction and operator= are modelled as sequential plain inserts, insert(other) as '
-                  'plain + hinted inserts, as the code does. MultiMap has no copy/bulk operations (ops are no-ops there). '
-                  'find_cost_logarithmic_real depends on the axioms of Coq\'s classical real numbers; the other 14 theorems are '
+                  'the way to the root). Copy construction and operator= (Map and MultiMap) are modelled as sequential plain inserts of '
+                  'the source\'s entries in iteration order, Map::insert(other) as plain + hinted inserts, as the code does; MultiMap '
+                  'has no insert(other) (the op is a no-op there); insert(other) of a Map into itself is not driven. The new entries '
+                  'of a copy are numbered by the harness in iteration order (the values, which differ inside every generated run of '
+                  'equal keys, show the order of a run). Choices where the property text is silent: MultiMap::remove(key) removes one '
+                  'entry, the first of the run of equal keys (theorem remove_key_removes_first_of_run), as the code does; the place of '
+                  'a hinted MultiMap insert inside a run of equal keys is an input of the reference, which only checks that the order '
+                  'is kept. find_cost_logarithmic_real depends on the axioms of Coq\'s classical real numbers; the other 17 theorems are '
                   'closed under the global context. Trusted: Coq kernel, AvlSpec.v as the reading of the property text, extraction, '
                   'OCaml driver, harness, comparison-counting key type.')
     technique = 'Coq proof about an executable Gallina model (invariant + refinement + cost bound); extracted model and reference run against the sanitizer build of the code on generated histories'
     rule = ('cases = operation histories on two Map or two MultiMap objects: boundary (empty, single entry, key 0, negatives, '
-            'equal keys), build profiles (ascending/descending/zigzag/random/internal two-child removals/hinted/bulk+copy/equal-key '
-            'runs) over key ranges 4..200 and lengths 3..300, a small exhaustive scope of {reset op} x {hint position} x {key vs old '
-            'extremes} (416 cases), and fill-then-drain histories (one side, all but powers of two, repeated median/quartile removals) up to 60 (quick) / 255 (thorough) entries; oracles: reference results line by line (hinted MultiMap positions checked relationally), comparison count and real tree depth against 2*floor(1.4405*log2(n+2)); a case is '
+            'equal keys, copy/assign/self-assign over empty and non-empty targets), build profiles (ascending/descending/zigzag/'
+            'random/internal two-child removals/hinted/copy+assign+self-assign (both flavours, MultiMap sources with runs of equal '
+            'keys built by plain and hinted inserts) and insert(other) (Map)/equal-key runs) over key ranges 4..200 and lengths 3..300, a small exhaustive scope of {reset op} x {hint position} x {key vs old '
+            'extremes} (448 cases quick, 908 thorough), and fill-then-drain histories (one side, all but powers of two, repeated median/quartile removals) up to 60 (quick) / 255 (thorough) entries; oracles: reference results line by line (hinted MultiMap positions checked relationally), comparison count and real tree depth against 2*floor(1.4405*log2(n+2)); a case is '
             'non-trivial when it has at least 3 mutating operations and reaches at least 3 entries; distinct = distinct op text')
     assumptions = ['keys and values are int (the code is a template; the harness instantiates a comparison-counting int key)',
                    'the allocator succeeds (no out-of-memory path is modelled)',
@@ -569,14 +605,20 @@ class C01(Check):
             cases.append(['@' + fl, 'ins -5 1', 'ins -7 2', 'ins 0 3', 'ins -6 4', 'count 0', 'count -6', 'find -7', 'hint 9 -8 5', 'hint 0 -9 6', 'back', 'front'])
             cases.append(['@' + fl, 'ins 5 1', 'ins 5 2', 'ins 5 3', 'count 5', 'find 5', 'remk 5', 'count 5', 'find 5'])
             cases.append(['@' + fl, 'sel 1', 'ins 1 1', 'sel 0', 'copy', 'bulk', 'copyc', 'sel 1', 'bulk', 'bulk', 'copy', 'clear', 'sel 0', 'copy'])
+            cases.append(['@' + fl, 'copys', 'ins 2 1', 'copys', 'ins 1 2', 'ins 3 3', 'copys', 'find 2', 'sel 1', 'copys', 'copy', 'copys', 'remf', 'sel 0', 'copyc', 'copys', 'back'])
+            # copy / assign over a non-empty target, then keep using both objects
+            cases.append(['@' + fl, 'ins 4 1', 'ins 2 2', 'ins 6 3', 'sel 1', 'ins 9 4', 'ins 8 5', 'ins 7 6', 'ins 1 7', 'copy', 'ins 5 8', 'remk 2',
+                          'sel 0', 'find 2', 'count 4', 'copyc', 'hint 0 0 9', 'sel 1', 'back', 'front', 'remb', 'sel 0', 'back'])
+        # MultiMap copies keep the order inside runs of equal keys (values tell the entries apart)
+        cases.append(['@multimap', 'ins 5 1', 'ins 5 2', 'ins 5 3', 'sel 1', 'copy', 'find 5', 'count 5', 'front', 'back', 'remk 5', 'front', 'sel 0', 'copyc', 'front', 'count 5'])
+        cases.append(['@multimap', 'ins 3 1', 'ins 5 2', 'ins 3 3', 'ins 5 4', 'hint 0 3 5', 'hint 9 5 6', 'ins 4 7', 'ins 3 8', 'sel 1', 'ins 3 9', 'copyc',
+                      'count 3', 'find 3', 'find 5', 'remk 3', 'find 3', 'sel 0', 'copy', 'count 3', 'find 3', 'remf', 'remb', 'sel 1', 'copy', 'back'])
         out.append(Stream('boundary', cases))
         # profile streams
         reps = 20 if thorough else 2
         for prof in PROFILES:
             cases = []
             for multi in (False, True):
-                if prof == 'bulk' and multi:
-                    continue
                 if prof == 'equal' and not multi:
                     continue
                 for R in (4, 8, 30, 200):
